@@ -80,7 +80,8 @@ Fixpoint ref_reasm (acc : list (Z * list N)) (bl : list (shdr * list N)) : list 
   | [] => []
   | (h, d) :: r =>
     let k := s_system h in
-    let prev := match find (fun p => fst p =? k) acc with Some p => snd p | None => [] end in
+    (* a block numbered 0 or 1 starts a message: what an abandoned attempt left behind does not count *)
+    let prev := if (s_block h <=? 1) then [] else match find (fun p => fst p =? k) acc with Some p => snd p | None => [] end in
     let rest := filter (fun p => negb (fst p =? k)) acc in
     if s_e h then Some (h, prev ++ d) :: ref_reasm rest r
     else None :: ref_reasm ((k, prev ++ d) :: rest) r
